@@ -223,8 +223,8 @@ func runSchedule(system string, threads [][]string, choices []int) concResult {
 			break
 		}
 		ch := 0
-		if step < len(choices) && choices[step] < len(enabled) {
-			ch = choices[step]
+		if step < len(choices) {
+			ch = choices[step] % len(enabled)
 		}
 		res.branching = append(res.branching, len(enabled))
 		step++
@@ -353,7 +353,49 @@ func explore(system string, threads [][]string, max int) (outcomes map[string][]
 			}
 		}
 	}
+	// half of the budget systematically (depth first, which varies the late decisions first), the
+	// other half on seeded random schedules (which vary the early ones)
+	total := max
+	max = total / 2
+	if max < 1 {
+		max = 1
+	}
 	dfs(nil)
+	if exhaustive {
+		return
+	}
+	max = total
+	rng := uint64(0x9E3779B97F4A7C15)
+	next := func() int {
+		rng += 0x9E3779B97F4A7C15
+		z := rng
+		z = (z ^ (z >> 30)) * 0xBF58476D1CE4E5B9
+		z = (z ^ (z >> 27)) * 0x94D049BB133111EB
+		z ^= z >> 31
+		return int(z >> 33)
+	}
+	for runs < max {
+		vec := make([]int, 96)
+		// runs of the same thread of random length: context switches are what matters
+		for i := 0; i < len(vec); {
+			t := next() % 4
+			for l := 1 + next()%4; l > 0 && i < len(vec); l-- {
+				vec[i] = t
+				i++
+			}
+		}
+		r := runSchedule(system, threads, vec)
+		runs++
+		if r.deadlock {
+			deadlock = true
+		}
+		if s := shapeOK(system, r.trace, threads); s != "ok" && shape == "ok" {
+			shape = s
+		}
+		if _, ok := outcomes[r.outcome]; !ok {
+			outcomes[r.outcome] = vec[:len(r.branching)]
+		}
+	}
 	return
 }
 
